@@ -57,7 +57,7 @@ func bodyInterposers(p *Program) []*types.Named {
 // filter selects the types to register (nil: all).
 func bodyBypassRule(h H, rule string, min int, filter func(*types.Named) bool) {
 	r := h.r
-	r.Rule(rule, "no way around Write: for every response-writer type of the module that declares its own Write (computed on every run: gzip's writers, the recorder, the buffer, …) the other body-carrying methods io.Copy and io.WriteString look for — ReadFrom, WriteString — are either absent from its method set or declared by the type itself, never inherited from an embedded writer", min)
+	r.Rule(rule, "no way around Write: for every response-writer type of the module that declares its own Write (computed on every run: gzip's writers, the recorder, the buffer, …) the other body-carrying methods io.Copy and io.WriteString look for — ReadFrom, WriteString — are either absent from its method set or declared by the type itself, never inherited from an embedded writer; likewise FlushError (preferred over Flush by http.ResponseController) for a type that declares its own Flush", min)
 	n := 0
 	for _, t := range bodyInterposers(h.p) {
 		if filter != nil && !filter(t) {
@@ -66,10 +66,19 @@ func bodyBypassRule(h H, rule string, min int, filter func(*types.Named) bool) {
 		n++
 		ms := types.NewMethodSet(types.NewPointer(t))
 		var inherited []string
+		declaresFlush := false
+		for i := 0; i < ms.Len(); i++ {
+			if sel := ms.At(i); sel.Obj().Name() == "Flush" && len(sel.Index()) == 1 {
+				declaresFlush = true
+			}
+		}
 		for i := 0; i < ms.Len(); i++ {
 			sel := ms.At(i)
 			nm := sel.Obj().Name()
-			if (nm == "ReadFrom" || nm == "WriteString") && len(sel.Index()) > 1 {
+			// FlushError is what http.ResponseController (and wrappers written for it) call in preference to Flush: a
+			// type that has something to do at flush time (gzip decides and flushes its compressor there) and inherits
+			// FlushError from the wrapper it embeds is flushed around
+			if (nm == "ReadFrom" || nm == "WriteString" || (nm == "FlushError" && declaresFlush)) && len(sel.Index()) > 1 {
 				inherited = append(inherited, nm+" (from "+types.TypeString(sel.Obj().(*types.Func).Type().(*types.Signature).Recv().Type(), nil)+")")
 			}
 		}
